@@ -338,7 +338,8 @@ def live_setup(ver, cipher, mac, etm, seed):
         while len(got) < 15:                         # the client consumes it, so both directions stay in step
             r = loop.drive([(x for x in p.client.readAsync(100, 1))], max_steps=4000)[0]
             if r[0] != 'ok' or not r[1]:
-                return None
+                return ('broken', 'after a completed handshake the client could not read the server\'s first '
+                                  'application record: %r' % (loop.classify(r),))
             got += r[1]
         return p, split_records(bytes(held)), split_records(bytes(sheld))
     finally:
@@ -351,7 +352,7 @@ def live_attack(args):
     import loop
     from tlslite import errors as E
     st = live_setup(ver, cipher, mac, etm, seed)
-    if st is None:
+    if st is None or st[0] == 'broken':
         return dict(args=args, skip=True)
     p, recs, srecs = st
     beast = len(recs) > len(MSGS)          # 1/n-1 split: records are [1 byte, rest] per message
@@ -384,6 +385,8 @@ def live_attack(args):
         feed = stream[:pos] + [srecs[0]]
     elif kind == 'cross':                  # record from another connection (another key epoch)
         other = live_setup(ver, cipher, mac, etm, seed + 1000003)
+        if other is None or other[0] == 'broken':
+            return dict(args=args, skip=True)
         feed = stream[:pos] + [other[1][pos]]
     elif kind == 'inject':                 # attacker-made plaintext record
         feed = stream[:pos] + [bytes(action[2])]
@@ -644,6 +647,12 @@ def run(ctx):
         for (ver, ci, m, e), lens in zip(LIVE_COMBOS, setups):
             if lens is None:
                 continue
+            if isinstance(lens, tuple) and lens[0] == 'broken':
+                found = True
+                ctx.violation('live:honest-stream-broken:%s' % ('tls13' if ver >= (3, 4) else ('aead' if m == 'aead' else 'legacy')),
+                              '%d.%d %s/%s etm=%s: %s' % (ver[0], ver[1], ci, m, e, lens[1]),
+                              {'args': [list(ver), ci, m, e, 17, ['honest', 0]], 'how': 'harness/props/C02.py live_setup(...)'})
+                continue
             combos_actions = live_actions(rng, len(lens), lens, quick, ver >= (3, 4))
             for a in combos_actions:
                 jobs.append((ver, ci, m, e, 17, a))
@@ -701,6 +710,8 @@ def live_probe(ver, cipher, mac, etm, seed):
     st = live_setup(ver, cipher, mac, etm, seed)
     if st is None:
         return None
+    if st[0] == 'broken':
+        return st
     return [len(x) for x in st[1]]
 
 
